@@ -251,13 +251,17 @@ let cyclic = Cc::new_cyclic(|weak| {
             panic!("Cannot create a new Cc while tracing!");
         }
 
-        let cc = Cc::new(NewCyclicWrapper::new());
-
-        // Immediately call inner_ptr and forget the Cc instance. Having a Cc instance is dangerous, since:
+        // Don't go through Cc::new here: the automatic collection it may start has to run before the (still uninitialized)
+        // wrapper exists, otherwise a panic inside that collection would drop the wrapper and thus an uninitialized T.
+        // Also, no Cc instance is ever created for the allocation until it is initialized, since:
         // 1. The strong count will become 0
         // 2. The Cc::drop implementation might be accidentally called during an unwinding
-        let invalid_cc: NonNull<CcBox<_>> = cc.inner_ptr();
-        mem::forget(cc);
+        let invalid_cc: NonNull<CcBox<NewCyclicWrapper<T>>> = crate::state::state(|state| {
+            #[cfg(feature = "auto-collect")]
+            crate::trigger_collection(state);
+
+            CcBox::new(NewCyclicWrapper::new(), state)
+        });
 
         let metadata: NonNull<BoxedMetadata> = unsafe { invalid_cc.as_ref() }.get_or_init_metadata();
 
